@@ -434,14 +434,15 @@ def c04(ctx):
             "Lock/Lease/Unlock, expiry followed by the background sampler's eviction), each operation on a random entry path, N=3, R in {2,3}, "
             "single- and multi-table fragments; after every reply the copy in every member's primary and backup fragment is logged; "
             "distinct = distinct (key kind, operation, reply, path) sequences; every sequence changes the stored entry"
-            + "; entries about as large as a storage table; rounds of 3-5 concurrent mutating operations (and lock hand-overs to a waiter) on one key with the copies compared once all have returned; janitor and compaction timers run in the small-table cluster")
+            + "; entries about as large as a storage table; rounds of 3-5 concurrent mutating operations (and lock hand-overs to a waiter) on one key with the copies compared once all have returned; janitor and compaction timers run in the small-table cluster; every seventh operation with a cancelled context; "
+            "janitor rounds (FragLife.tla's schedule on the replica write path by brute force: %d Puts each started together with the backup owner's janitor while the backup fragment is empty)" % (1500 if quick else 20000))
     design = [("DMapKeyMC", "DMapKey_quick.cfg" if quick else "DMapKey_thorough.cfg", {"timeout": 1500})]
     dk = dmapkey_trace(ctx, 6 if quick else 40)
     rule += ("; plus DMapKey.tla's own actions replayed on the recorded arrivals at the trace points of the owner's write and delete paths (3-6 clients on 3 keys, "
              "Put / NX / XX / Delete, delays inside the critical sections, R in 1..3): lock exclusive, order of the steps, refusals as the model computes them, "
              "copies equal at rest, final copies as the members hold them")
     return det_run(ctx, "reg", "TestC04", "c04.ndjson", "c04.summary.json", "ReplicaTrace", "ReplicaTrace.cfg",
-                   {"VERIF_SEQUENCES": 60 if quick else 4000, "VERIF_C04_ROUNDS": 30 if quick else 500}, design, rule, "backup mirrors primary", tags_of=last_op_tags,
+                   {"VERIF_SEQUENCES": 60 if quick else 4000, "VERIF_C04_ROUNDS": 30 if quick else 500, "VERIF_C04_JANITOR": 1500 if quick else 20000}, design, rule, "backup mirrors primary", tags_of=last_op_tags,
                    extra_cov={"dmapkey_hook_traces": dk})
 
 
